@@ -69,10 +69,6 @@ def selftest(ctx):
 
 
 # --------------------------------------------------------------------------------------- cases
-def _pairs():
-    return [(f, i) for f in G.families() for i in range(len(G.images(f)))]
-
-
 WITNESSES = [
     # known findings: must be re-observed in every run (directed, deterministic)
     {"kind": "witness", "name": "ambiguous-plain-ram", "family": "lpc5534", "target": "load_to_ram", "auth": "plain",
@@ -128,7 +124,6 @@ def cases(tier, seed):  # noqa: ARG001
         yield dict(w)
     reps = set(G.representative_families())
     per_rep, per_other = (6, 2) if tier == "quick" else (40, 40)
-    n = 0
     for fam in G.families():
         draws = per_rep if fam in reps else per_other
         for idx, info in enumerate(G.images(fam)):
@@ -139,7 +134,6 @@ def cases(tier, seed):  # noqa: ARG001
                 # CLI path on a sample: one draw of every class of the representative families (+ a slice of the rest)
                 if (fam in reps and k == 0) or (tier == "thorough" and k == 1 and idx == 0):
                     c["cli"] = True
-                n += 1
                 yield c
 
 
@@ -398,9 +392,13 @@ def _run(case, ctx, b, SPSDKError, MasterBootImage):  # noqa: C901
     sig = _sig(b, case)
     viol0 = ctx._viol_in_case
 
+    stage_bad = []      # filled after parse: (stage, owner, ...) of the first pipeline stage whose revert did not undo it
+
     def viol(key, **detail):
         d = {"config": b.describe()}
         d.update(detail)
+        if stage_bad:
+            d["stage_not_reverted"] = f"{stage_bad[0][0]} ({stage_bad[0][1]})"
         if dsc_app_too_short(b) and not key.startswith("mbi-parse-type") and key != "mbi-dsc-app-shorter-than-header-area":
             d["observed_as"] = key
             key = "mbi-dsc-app-shorter-than-header-area"
@@ -491,6 +489,9 @@ def _run(case, ctx, b, SPSDKError, MasterBootImage):  # noqa: C901
             raise
         viol(classify_parse_failure(b, e, data), exception=core.exc_brief(e))
         return
+    bad = check_stage_pairs(ctx, b, obj, par)      # localises a round-trip failure to one pipeline stage
+    if bad:
+        stage_bad.append(bad)
     same_class = type(par).__name__ == info["cls"]
     if not same_class:
         key = {"type-shared": "mbi-type-ambiguous-xip-vs-ram", "type-not-in-image": "mbi-parse-type-from-payload"}.get(
@@ -544,7 +545,6 @@ def _run(case, ctx, b, SPSDKError, MasterBootImage):  # noqa: C901
             _compare_config(b, cfg2, out_dir, viol, got_app)
 
     # ---- 5. stage pairs -------------------------------------------------------------------------
-    bad = check_stage_pairs(ctx, b, obj, par)
     if bad and ctx._viol_in_case == viol0:
         viol(f"stage-not-reverted:{bad[0]}:{bad[1].replace('Mbi_', '')}", stage=bad[0], owner=bad[1], in_len=bad[2], reverted_len=bad[3])
 
